@@ -1,5 +1,8 @@
 import ZV.Model.C32
-/-! `c32 rd <vers (0 = none)> <stream hex>` → `<m<type>:<len>,…|-> <err|cx|panic> pos=<n> hand=<n> retry=<n>` -/
+/-! `c32 rd <vers (0 = none)> <stream hex>` → `<m<type>:<len>,…|-> <err|cx|panic> pos=<n> hand=<n> retry=<n>`
+    `c32 dg <suite> <vers> <typ> <plain hex> <mode> <n> <outer typ> | <record type> <payload len> <kind> <block> <nonce>
+            <overhead> <hasMac 0|1> <macSize> <dec hex> <auth 0|1>` → `plain <typ> <len>` | `alert <n>` | `panic`
+    (the fields before `|` tell the Go side how to build the record; the model reads the ones after it) -/
 namespace ZV.C32
 
 def showEv (l : List (Nat × Nat)) : String :=
@@ -19,6 +22,17 @@ def handle (args : List String) : String :=
       | .msg _ _ st _ => s!"{showEv r.1} more {showSt st}"
       | .panic => s!"{showEv r.1} panic"
     | _, _ => "bad-op"
+  | ["dg", _, v, _, _, _, _, _, "|", rt, pl, k, bl, no, ov, hm, ms, d, au] =>
+    let kind? : Option CK := match k with
+      | "none" => some .none | "stream" => some .stream | "aead" => some .aead | "cbc" => some .cbc | _ => none
+    match v.toNat?, rt.toNat?, pl.toNat?, kind?, bl.toNat?, no.toNat?, ov.toNat?, ms.toNat?, ofHex d with
+    | some vers, some rtyp, some plen, some kind, some block, some nonce, some overhead, some macSize, some dec =>
+      let hc : HC := ⟨kind, vers, block, nonce, overhead, hm == "1", macSize⟩
+      match decrypt hc rtyp (List.replicate plen 0) dec (au == "1") with
+      | .plain t n => s!"plain {t} {n}"
+      | .alert a => s!"alert {a}"
+      | .panic => "panic"
+    | _, _, _, _, _, _, _, _, _ => "bad-op"
   | _ => "bad-op"
 
 end ZV.C32
